@@ -85,7 +85,18 @@ pub fn run_front(c: &Case) -> Out<Interval<f64>> {
         4 => {
             // data are integers, the predicate is "value below threshold"
             let data: Vec<i64> = (0..c.n).map(|i| if is_success(c.pattern, i, c.n, c.k) { -1 - (i as i64 % 7) } else { i as i64 % 5 }).collect();
-            proportion::ci_if(conf, &data, |&x| x < 0)
+            if c.pattern % 2 == 0 {
+                proportion::ci_if(conf, &data, |&x| x < 0)
+            } else {
+                // a predicate with a memory (the verdict depends on how often it has been asked): each element must be
+                // asked about exactly once, in order
+                let calls = std::cell::Cell::new(0u64);
+                proportion::ci_if(conf, &data, |_| {
+                    let i = calls.get();
+                    calls.set(i + 1);
+                    i < c.n && is_success(c.pattern, i, c.n, c.k)
+                })
+            }
         }
         5 => {
             if c.pattern % 2 == 0 {
@@ -109,7 +120,16 @@ pub fn run_front(c: &Case) -> Out<Interval<f64>> {
         7 => {
             let mut s = proportion::Stats::default();
             let data: Vec<f64> = (0..c.n).map(|i| if is_success(c.pattern, i, c.n, c.k) { 0.25 } else { 0.75 }).collect();
-            s.extend_if(&data, |&x| x <= 0.5);
+            if c.pattern % 2 == 0 {
+                s.extend_if(&data, |&x| x <= 0.5);
+            } else {
+                let calls = std::cell::Cell::new(0u64);
+                s.extend_if(&data, |_| {
+                    let i = calls.get();
+                    calls.set(i + 1);
+                    i < c.n && is_success(c.pattern, i, c.n, c.k)
+                });
+            }
             s.ci(conf)
         }
         8 => {
